@@ -205,6 +205,8 @@ def harness_history(u, hid, steps, init_kind):
             hs.append({"op": "put", "kind": "file", "path": s["path_s"]})
         elif s["op"] == "rm":
             hs.append({"op": "rm", "path": s["path_s"]})
+        elif s["op"] in ("swapout", "swapin"):
+            hs.append({"op": s["op"], "path": s["path_s"], "aside": "c/aside/" + s["path_s"].split("/")[-1]})
     init = []
     if init_kind == "stale":
         for s in u.stale_init():
